@@ -100,6 +100,7 @@ CHECKS = {
     "C14": {
         "parts": [
             {"test": "TestC14", "quick": 60000, "thorough": 300000, "shards": 16, "quick_shards": 2},
+            {"test": "TestC14ManyGroups", "rapid": False, "quick": 0, "thorough": 0, "shards": 1},
         ],
         "assumptions": ["conventional rule for references: a group keeps its last participating value; a reference evaluated before its group participated is engine specific -> discarded and counted",
                         "K4 (capturing group under a quantifier with min >= 1 or max = 0) and K5 (numbered reference in a regex with named groups) excluded by construction and counted"],
@@ -129,15 +130,17 @@ CHECKS = {
     "C06": {
         "parts": [
             {"test": "TestC06", "quick": 2500, "thorough": 20000, "shards": 16, "quick_shards": 2},
+            {"test": "TestC06Big", "rapid": False, "quick": 0, "thorough": 0, "shards": 9, "quick_shards": 4},
         ],
-        "assumptions": ["file sizes up to 20000 bytes; bodies without unbounded greedy loops (cost of the VM is quadratic in the run length); local filesystem"],
+        "assumptions": ["generated files up to 20000 bytes, the enumerated big files 64 KiB .. 1 MiB; bodies without unbounded greedy loops (cost of the VM is quadratic in the run length); local filesystem"],
     },
     "C07": {
         "parts": [
             {"test": "TestC07Reader", "quick": 4000, "thorough": 10000, "shards": 16, "quick_shards": 2},
             {"test": "TestC07Files", "quick": 700, "thorough": 1500, "shards": 16, "quick_shards": 2},
+            {"test": "TestC07Big", "rapid": False, "quick": 0, "thorough": 0, "shards": 6, "quick_shards": 4},
         ],
-        "assumptions": ["files up to 20000 bytes (five buffer windows); the reader is driven with the engine's two access shapes only (seek-then-read, ReadAt)"],
+        "assumptions": ["generated files up to 20000 bytes (five buffer windows), the enumerated big files 300 kB .. 3 MiB; the reader is driven with the engine's two access shapes only (seek-then-read, ReadAt)"],
     },
     "C18": {
         "cli": True,
